@@ -114,7 +114,9 @@ func (r Relation) ArrayEnumerator() ValueEnumerator {
 }
 
 func (r Relation) With(v Value) Set {
-	if t, is := v.(Tuple); is && r.attrs.EqualTupleAttrs(t) {
+	// Only generic tuples are rows; (@, @char)-style tuples that have their
+	// own specialised type belong to the string/array/bytes/dict bucket.
+	if t, is := v.(*GenericTuple); is && r.attrs.EqualTupleAttrs(t) {
 		return newRelation(r.attrs, r.p, r.rows.With(r.tupleToValues(t)))
 	}
 	return toUnionSetWithItem(r, v)
